@@ -17,7 +17,7 @@ import (
 // scope (creations and deletions are what the window applies, so the key set tells).
 func (e *c02Env) waitCaches(m *c02Mon) bool {
 	mon := m.mgr.GetMonitor(m.id)
-	deadline := time.Now().Add(c02Deadline)
+	deadline := time.Now().Add(10 * time.Second)
 	for {
 		ok := e.cl.drained(mon, m.spec)
 		if ok {
